@@ -1,7 +1,7 @@
 SPEC = dict(
     id="C22",
-    level_text="Lean 4 theorems over an executable model of ClusterFSM (all 29 command types, every secondary index, snapshot, restore with its own validation and index rebuild): C22_batch_atomic (a batch is refused without effect or equals its ops applied one by one; all states/indexes/op lists), C22_files_index_partial / C22_restore_manifest_partial (filesByDB agrees with files, and node+manifest parts survive snapshot+restore, for every history incl. invalid commands and restores anywhere, outside the carve-out 'Update with empty database'), C22_replay_manifest_partial (replay from a snapshot after any prefix = replay from empty, manifest+node parts), C22_cascade_indexes_complete (every RBAC child is listed in its parent's traversal index, all histories); witnesses C22_files_index_witness, C22_restore_files_witness, C22_replay_files_witness, C22_restore_token_witness, C22_replay_token_witness for the two defect classes found on the real code; C22_dispatch_tied / C22_apply_pure / C22_validators_tied re-prove by `decide` over facts regenerated from the current source that Apply dispatches as modelled, reaches no clock/random/OS call, and pairs validators as modelled. The model is diffed line by line (primaries AND indexes, after every command, after snapshot+restore at every prefix, and on replays from snapshots) against the real Apply/Snapshot/Persist/Restore.",
-    level_note="PROVED: dispatch/purity/validator ties; batch all-or-nothing (all inputs); filesByDB agreement, restore fidelity and replay-from-snapshot for the manifest + node parts (partial: carve-out 'Update with empty database'; full for the patched function: C22_repaired_files_index_full); completeness of the five RBAC traversal indexes (C22_cascade_indexes_complete, all histories); witnesses for both defect classes (C22_*_witness). VALIDATED ONLY (harness monitors on the real FSM, exhaustive short sequences + random histories, not proved): soundness direction of the token/RBAC indexes (tokensByName, tokensByPrefix, organizationsByName, teamsByOrg, membershipsByPair …), restore fidelity and replay-from-snapshot for the token/RBAC part. Known findings: keys index:filesByDB-empty-db, restore:filesByDB-empty-db, replay-diverges:filesByDB-empty-db, restore:token-name-unvalidated, replay-diverges:token-name-unvalidated",
+    level_text="Lean 4 theorems over an executable model of the CURRENT ClusterFSM (all 29 command types, every secondary index, snapshot, restore with its own validation and index rebuild), full strength for every history (any commands incl. invalid/duplicate/out-of-order at any log indexes, snapshot+restore anywhere): C22_deterministic, C22_batch_atomic (a batch is refused without effect or equals its ops applied one by one), C22_files_index (filesByDB agrees exactly with files, empty database included), C22_restore_manifest and C22_replay_manifest (restore(snapshot s) = s and replay from a snapshot after ANY prefix = replay from empty, for the manifest and node parts), C22_cascade_indexes_complete (every RBAC child is listed in its parent's traversal index). C22_dispatch_tied / C22_apply_pure / C22_validators_tied re-prove by `decide` over facts regenerated from the current source that Apply dispatches as modelled, reaches no clock/random/OS call, pairs validators as modelled, validates a changed token name and indexes every database. C22_prefix_*_witness keep the two pre-fix defect classes as statements about explicitly named pre-fix functions. The model is diffed line by line (primaries AND indexes, after every command, after snapshot+restore at every prefix, and on replays from snapshots) against the real Apply/Snapshot/Persist/Restore; all property monitors (index agreement for all ten indexes, restore fidelity, replay divergence, batch atomicity, peer determinism) are live and silent.",
+    level_note="VALIDATED ONLY (harness monitors on the real FSM, exhaustive short sequences + random histories; not proved): soundness direction of the token/RBAC indexes and restore/replay fidelity of the token/RBAC part — see report for what the token-part section proves",
     technique="Lean 4 invariant proofs (induction over histories with restores) over an executable FSM model; regenerated dispatch/purity/validator facts; differential correspondence on the real FSM incl. snapshot/persist/restore",
     factgen=True,
     hooks={"internal/cluster/raft": "go/hooks/raft"},
